@@ -199,6 +199,26 @@ Proof.
   - split; [|reflexivity]. intros _. exists x. apply Hl. left. reflexivity.
 Qed.
 
+(* a configuration that config.Load accepts gives every route name lists that the Intervener knows *)
+Lemma lookup_iv_defined n (m : intervals) : lookup_iv n m <> None <-> In n (map fst m).
+Proof.
+  induction m as [|[k v] r IH]; simpl; [tauto|].
+  destruct (String.eqb_spec n k) as [->|Hne].
+  - split; [intros _; left; reflexivity | discriminate].
+  - rewrite IH. split; [intros H; right; exact H | intros [H|H]; [congruence | exact H]].
+Qed.
+
+Lemma cfg_names_ok_all_known (m : intervals) root_used routes_used :
+  cfg_names_ok (map fst m) root_used routes_used = true ->
+  root_used = [] /\ forall names, In names routes_used -> all_known m names.
+Proof.
+  unfold cfg_names_ok. rewrite !andb_true_iff. intros [[[_ _] Hr] Hu]. split.
+  - exact (proj1 (beq_true _ _) Hr).
+  - intros names Hin n Hn. apply lookup_iv_defined.
+    rewrite forallb_forall in Hu. specialize (Hu names Hin). rewrite forallb_forall in Hu.
+    specialize (Hu n Hn). apply bool_decide_eq_true in Hu. apply elem_of_list_In. exact Hu.
+Qed.
+
 (* ---- the stages ---- *)
 Lemma mute_stage_spec tz m route gkey mute active now :
   all_known m mute ->
@@ -274,6 +294,28 @@ Proof.
     + intros _. apply Hb.
     + intros _. reflexivity.
     + intros H. contradiction.
+Qed.
+
+(* the gating statement for one flush, as a predicate on its outcome *)
+Definition flush_ok (tz : string -> Z -> Z) (m : intervals) (mute active : list string) (now : Z)
+  (out : bool * option string * option (list string)) : Prop :=
+  let blocked_active := active <> [] /\ forall n, ~ muted_by tz m active now n in
+  let blocked_mute := exists n, muted_by tz m mute now n in
+  exists p mk, out = (p, None, Some mk) /\
+    (p = true <-> ~ blocked_active /\ ~ blocked_mute) /\
+    (p = true -> mk = []) /\ (p = false -> mk <> []) /\
+    (blocked_active -> mk = active) /\
+    (~ blocked_active -> forall n, In n mk <-> muted_by tz m mute now n).
+
+(* every flush of every tick sequence is gated by its own instant only, whatever earlier flushes left behind *)
+Lemma flush_seq_gated tz m route gkey mute active :
+  all_known m mute -> all_known m active ->
+  forall nows marker,
+    Forall2 (flush_ok tz m mute active) nows (flush_seq tz m route gkey mute active marker nows).
+Proof.
+  intros Hm Ha nows. induction nows as [|now r IH]; intros marker; simpl; constructor.
+  - exact (gating tz m route gkey mute active now marker Hm Ha).
+  - apply IH.
 Qed.
 
 (* what the API reads back from the marker: muted iff names non-empty *)
